@@ -21,7 +21,7 @@ import modelgen
 import vlib
 
 THEOREMS = ["Yardl.C09.violation_anywhere_rejects", "Yardl.C09.accepted_means_every_node_ok", "Yardl.C09.visitor_reaches_every_child",
-            "Yardl.C09.visitor_covers_type_nodes", "Yardl.C09.all_rule_passes_in_pipeline", "Yardl.C09.import_and_version_errors_returned"]
+            "Yardl.C09.visitor_covers_type_nodes", "Yardl.C09.all_rule_passes_in_pipeline", "Yardl.C09.import_and_version_errors_returned", "Yardl.C09.reference_cycle_is_rejected"]
 
 P = lambda n: ("prim", n)
 
